@@ -24,7 +24,8 @@ Definition scan_post (l0 : lexer) (r : token * lexer) : Prop :=
   (xl l0 = false -> tkind (fst r) = T_DIV ->
      lpos (snd r) = col_add (tpos (fst r)) 1 /\ offset (snd r) = tstart (fst r) + 2) /\
   (xl l0 = false -> tkind (fst r) = T_DIV_ASSIGN ->
-     lpos (snd r) = col_add (tpos (fst r)) 2 /\ offset (snd r) = tstart (fst r) + 3).
+     lpos (snd r) = col_add (tpos (fst r)) 2 /\ offset (snd r) = tstart (fst r) + 3) /\
+  (xl l0 = true -> xl (snd r) = true).
 
 Lemma choice_spec l0 l c one two :
   NormInv l -> Rel l0 l -> c <> 0 ->
@@ -123,6 +124,7 @@ Proof.
   - unfold is_final. cbn [tkind]. intros H; vm_compute in H; discriminate H.
   - intros _ H; vm_compute in H; discriminate H.
   - intros _ H; vm_compute in H; discriminate H.
+  - congruence.
 Qed.
 
 Lemma tok_at_ok lc l0 kind val l' :
@@ -147,20 +149,22 @@ Proof.
   - intros H; vm_compute in H; discriminate H.
   - intros _ H; vm_compute in H; discriminate H.
   - intros _ H; vm_compute in H; discriminate H.
+  - cbn [snd tok_at]. congruence.
 Qed.
 
 Lemma post_tok lc l0 l' kind val :
   NormInv lc -> Rel l0 lc -> NormInv l' -> offset lc < offset l' ->
-  kind <> T_DIV -> kind <> T_DIV_ASSIGN ->
+  kind <> T_DIV -> kind <> T_DIV_ASSIGN -> (xl l0 = true -> xl l' = true) ->
   scan_post l0 (tok_at lc l0 kind val l').
 Proof.
-  intros Hn (Hx & Ho) Hn' Ho' Hk1 Hk2. unfold scan_post. splits.
+  intros Hn (Hx & Ho) Hn' Ho' Hk1 Hk2 Hmono. unfold scan_post. splits.
   - apply NormInv_Inv; exact Hn'.
   - reflexivity.
   - apply tok_at_ok; assumption.
   - intros _. split; [exact Hn'|cbn [snd tok_at]; lia].
   - intros _ H. cbn [fst tok_at tkind] in H. contradiction.
   - intros _ H. cbn [fst tok_at tkind] in H. contradiction.
+  - exact Hmono.
 Qed.
 
 Lemma plain_kind_neq t : plain_kind t = true -> t <> T_EOF /\ t <> T_DIV /\ t <> T_DIV_ASSIGN.
@@ -214,11 +218,11 @@ Proof.
     destruct (slice_ok src (offset l1 - 2) (offset l2 - 1)) as (name & Es); [lia|lia|].
     rewrite Es. cbn [of_res lbind].
     destruct (keyword_token name =? T_ILLEGAL) eqn:Ek.
-    - apply okr_ret. apply post_tok; try assumption; try lia; tkneq.
+    - apply okr_ret. apply post_tok; try assumption; try lia; try tkneq; try (destruct Hr2; congruence); try (destruct Hr3; congruence).
     - apply okr_ret.
       assert (Hk : keyword_token name <> T_ILLEGAL) by lia.
       pose proof (plain_kind_neq _ (keyword_token_plain name Hk)) as (_ & ? & ?).
-      apply post_tok; try assumption; lia. }
+      apply post_tok; try assumption; try lia. destruct Hr2; congruence. }
   destruct (is_digit (ch l) || (ch l =? 46)) eqn:Enum.
   { (* numbers *)
     eapply okr_bind with (Q1 := fun gl => NormInv (snd gl) /\ Rel l0 (snd gl) /\ offset l1 <= offset (snd gl)).
@@ -237,15 +241,15 @@ Proof.
     intros (got, l3) (Hn3 & Hr3 & Ho3 & _). cbn [fst snd] in *. pose proof Hr3 as (Hx3 & Hle3).
     destruct (negb got).
     { apply okr_ret. apply post_illegal; [apply NormInv_Inv; assumption|assumption]. }
-    eapply okr_bind with (Q1 := fun l4 => NormInv l4 /\ offset l3 <= offset l4).
+    eapply okr_bind with (Q1 := fun l4 => NormInv l4 /\ offset l3 <= offset l4 /\ (xl l3 = true -> xl l4 = true)).
     { destruct ((ch l3 =? 101) || (ch l3 =? 69)) eqn:Ee.
       - eapply okr_weaken; [apply (scan_exponent_spec src fuel l3 Hn3); lia|].
-        intros l4 (? & ? & _). split; assumption.
-      - apply okr_ret. split; [assumption|lia]. }
-    intros l4 (Hn4 & Ho4). pose proof (NormInv_bounds _ Hn4) as Hb4.
+        intros l4 (? & ? & ?). splits; assumption.
+      - apply okr_ret. splits; [assumption|lia|auto]. }
+    intros l4 (Hn4 & Ho4 & Hm4). pose proof (NormInv_bounds _ Hn4) as Hb4.
     destruct (slice_ok src (offset l1 - 2) (offset l4 - 1)) as (v & Es); [lia|lia|].
     rewrite Es. cbn [of_res lbind].
-    apply okr_ret. apply post_tok; try assumption; try lia; tkneq. }
+    apply okr_ret. apply post_tok; try assumption; try lia; try tkneq; try (destruct Hr2; congruence); try (destruct Hr3; congruence). }
   destruct ((ch l =? 34) || (ch l =? 39)) eqn:Estr.
   { (* strings *)
     eapply okr_bind; [apply (parse_string_spec src fuel (ch l) [] l1 l1 (NormInv_Inv _ _ Hn1) (Rel_refl l1)); lia|].
@@ -258,7 +262,7 @@ Proof.
     pose proof (Inv_nonzero_NormInv src l2 Hi2 Hnz2) as Hn2. pose proof Hr2 as (Hx2 & Hle2).
     eapply okr_bind; [apply (nextN src l0 l2 Hn2 Hr2 Hnz2)|].
     intros l3 (Hn3 & Hr3 & Ho3 & _).
-    apply okr_ret. apply post_tok; try assumption; try lia; tkneq. }
+    apply okr_ret. apply post_tok; try assumption; try lia; try tkneq; try (destruct Hr2; congruence); try (destruct Hr3; congruence). }
   destruct (ch l =? 38) eqn:Eamp.
   { (* '&' *)
     eapply okr_bind; [apply (choice_spec l0 l1 38 T_ILLEGAL T_AND Hn1 Hr1); lia|].
@@ -267,7 +271,7 @@ Proof.
     - replace (T_ILLEGAL =? T_ILLEGAL) with true by reflexivity.
       apply okr_ret. apply post_illegal; [apply NormInv_Inv; assumption|assumption].
     - replace (T_AND =? T_ILLEGAL) with false by reflexivity.
-      apply okr_ret. apply post_tok; try assumption; try lia; tkneq. }
+      apply okr_ret. apply post_tok; try assumption; try lia; try tkneq; try (destruct Hr2; congruence); try (destruct Hr3; congruence). }
   (* all other characters *)
   eapply okr_bind; [apply (scan_symbol_spec (ch l) l0 l1 Hn1 Hr1)|].
   intros ((t, v), l2) (Hn2 & Hr2 & Ho2 & Hne & Hd1 & Hd2).
@@ -294,6 +298,140 @@ Proof.
     rewrite (adv_plain _ (ch l1)) by (rewrite Hc61; unfold plain; lia).
     rewrite adv_plain by (rewrite (Hd1 (or_intror Ht)); unfold plain; lia).
     rewrite col_add_add. split; [reflexivity|lia].
+  - destruct Hr2; congruence.
+Qed.
+
+(* ---- Scan(): scan() + lastTok ------------------------------------------------------------ *)
+Lemma Scan_spec fuel l0 :
+  NormInv l0 -> len + 2 - offset l0 <= Z.of_nat fuel ->
+  okr (fun r => scan_post l0 r /\ lastTok (snd r) = tkind (fst r)) (Scan src fuel l0).
+Proof.
+  intros Hn Hf. unfold Scan.
+  eapply okr_bind; [apply (scan_spec fuel l0 Hn Hf)|].
+  intros (t, l') Hp. apply okr_ret. cbn [fst snd]. split; [exact Hp|reflexivity].
+Qed.
+
+(* ---- scanRegex() --------------------------------------------------------------------------- *)
+(* the lexer state right after a DIV (back = 1) or DIV_ASSIGN (back = 2) token that started
+   at offset s *)
+Definition regex_pre (l0 : lexer) (back : Z) : Prop :=
+  xl l0 = false -> exists s, 0 <= s /\ lpos l0 = col_add (P s) back /\ offset l0 = s + 1 + back.
+
+Definition regex_post (l0 : lexer) (r : token * lexer) : Prop :=
+  Inv (snd r) /\ tbad (fst r) = xl l0 /\ tok_ok (fst r) /\
+  (is_final (fst r) = false -> NormInv (snd r) /\ offset l0 < offset (snd r)).
+
+Lemma scan_regex_spec fuel l0 :
+  NormInv l0 ->
+  (lastTok l0 = T_DIV /\ regex_pre l0 1) \/ (lastTok l0 = T_DIV_ASSIGN /\ regex_pre l0 2) ->
+  len + 2 - offset l0 <= Z.of_nat fuel ->
+  okr (regex_post l0) (scan_regex src fuel l0).
+Proof.
+  intros Hn Hlast Hf. unfold scan_regex.
+  assert (Hback : exists back, (back = 1 \/ back = 2) /\ regex_pre l0 back /\
+            (if lastTok l0 =? T_DIV then LOk 1 else if lastTok l0 =? T_DIV_ASSIGN then LOk 2 else LPanic) = LOk back).
+  { destruct Hlast as [(-> & Hp)|(-> & Hp)]; [exists 1|exists 2]; splits; auto. }
+  destruct Hback as (back & Hb12 & Hpre & ->). cbn [lbind].
+  pose proof (NormInv_bounds _ Hn) as Hb0.
+  eapply okr_bind; [apply (regex_loop_spec src fuel _ l0 l0 (NormInv_Inv _ _ Hn) (Rel_refl l0)); exact Hf|].
+  intros [msg l|chars l] (Hi & Hr & Hc); cbn [rx_state] in *.
+  - apply okr_ret. destruct (post_illegal l0 l msg Hi Hr) as (H1 & H2 & H3 & H4 & _).
+    unfold regex_post. splits; assumption.
+  - assert (Hnz : ch l <> 0) by lia.
+    pose proof (Inv_nonzero_NormInv src l Hi Hnz) as Hnl. pose proof Hr as (Hx & Hle).
+    eapply okr_bind; [apply (nextN src l0 l Hnl Hr Hnz)|].
+    intros l' (Hn' & Hr' & Ho' & _). apply okr_ret.
+    unfold regex_post. cbn [fst snd tbad tkind]. splits.
+    + apply NormInv_Inv; exact Hn'.
+    + reflexivity.
+    + unfold tok_ok. cbn [tbad tkind tpos tstart tover]. intros Hb.
+      destruct (Hpre Hb) as (s & Hs0 & Hl & Ho).
+      assert (Epos : col_add (lpos l0) (- back) = P s).
+      { rewrite Hl, col_add_add. replace (back + - back) with 0 by lia. apply col_add_0. }
+      split.
+      * intros _. rewrite Epos. replace (offset l0 - 1 - back) with s by lia. split; [reflexivity|lia].
+      * intros H; vm_compute in H; discriminate H.
+    + intros _. split; [exact Hn'|lia].
+Qed.
+
+Lemma ScanRegex_spec fuel l0 :
+  NormInv l0 ->
+  (lastTok l0 = T_DIV /\ regex_pre l0 1) \/ (lastTok l0 = T_DIV_ASSIGN /\ regex_pre l0 2) ->
+  len + 2 - offset l0 <= Z.of_nat fuel ->
+  okr (regex_post l0) (ScanRegex src fuel l0).
+Proof.
+  intros Hn Hl Hf. unfold ScanRegex.
+  eapply okr_bind; [apply (scan_regex_spec fuel l0 Hn Hl Hf)|].
+  intros (t, l') Hp. apply okr_ret. exact Hp.
+Qed.
+
+(* ---- the client loop ------------------------------------------------------------------------ *)
+Definition all_ok (os : list obs) : Prop := Forall (fun o => tok_ok (otok o)) os.
+Definition ends_final (os : list obs) : Prop :=
+  exists pre o, os = pre ++ [o] /\ is_final (otok o) = true /\
+                Forall (fun o' => is_final (otok o') = false) pre.
+Definition first_bad (os : list obs) (v : bool) : Prop :=
+  match os with o :: _ => tbad (otok o) = v | [] => False end.
+
+Lemma lex_fuel_enough l : NormInv l -> len + 2 - offset l <= Z.of_nat (lex_fuel src).
+Proof.
+  intros Hn. pose proof (NormInv_bounds _ Hn). unfold lex_fuel, zlen. lia.
+Qed.
+
+Lemma scan_loop_spec :
+  forall fuel ds l, NormInv l -> len + 2 - offset l <= Z.of_nat fuel ->
+  okr (fun os => all_ok os /\ ends_final os /\ first_bad os (xl l))
+      (scan_loop src (lex_fuel src) fuel ds l).
+Proof.
+  induction fuel as [|f IH]; intros ds l Hn Hf.
+  - exfalso. pose proof (NormInv_bounds _ Hn). lia.
+  - cbn [scan_loop].
+    eapply okr_bind; [apply (Scan_spec _ l Hn (lex_fuel_enough l Hn))|].
+    intros (t, l1) ((Hi1 & Hbad & Hok & Hnf & Hdiv & Hdiva & Hmono) & Hlast). cbn [fst snd] in *.
+    destruct (is_final t) eqn:Efin.
+    { apply okr_ret. splits.
+      - constructor; [exact Hok|constructor].
+      - exists [], (observe t l1). splits; [reflexivity|exact Efin|constructor].
+      - exact Hbad. }
+    destruct (Hnf eq_refl) as (Hn1 & Ho1).
+    set (want := match ds with d :: _ => is_div t && d | [] => false end).
+    destruct want eqn:Ewant.
+    + (* the client asks for a regex *)
+      assert (Hd : is_div t = true) by (subst want; destruct ds; [discriminate|]; lia).
+      assert (Hpre : (lastTok l1 = T_DIV /\ regex_pre l1 1) \/ (lastTok l1 = T_DIV_ASSIGN /\ regex_pre l1 2)).
+      { assert (Hx : xl l1 = false -> xl l = false) by (destruct (xl l); [intros H; rewrite (Hmono eq_refl) in H; discriminate|reflexivity]).
+        assert (Hstart : xl l1 = false -> tkind t <> T_ILLEGAL -> tpos t = P (tstart t) /\ 0 <= tstart t).
+        { intros H1 Hk. destruct (Hok ltac:(rewrite Hbad; auto)) as (Hp & _). destruct (Hp Hk) as (? & ? & _). split; assumption. }
+        unfold is_div in Hd. destruct (tkind t =? T_DIV) eqn:Ed.
+        - left. assert (Ek : tkind t = T_DIV) by lia. split; [congruence|].
+          intros H1. destruct (Hdiv (Hx H1) Ek) as (Hl & Ho).
+          destruct (Hstart H1) as (Hp & Hs); [rewrite Ek; tkneq|].
+          exists (tstart t). splits; [assumption|congruence|lia].
+        - right. assert (Ek : tkind t = T_DIV_ASSIGN) by lia. split; [congruence|].
+          intros H1. destruct (Hdiva (Hx H1) Ek) as (Hl & Ho).
+          destruct (Hstart H1) as (Hp & Hs); [rewrite Ek; tkneq|].
+          exists (tstart t). splits; [assumption|congruence|lia]. }
+      eapply okr_bind; [apply (ScanRegex_spec _ l1 Hn1 Hpre (lex_fuel_enough l1 Hn1))|].
+      intros (r, l2) (Hi2 & Hbad2 & Hok2 & Hnf2). cbn [fst snd] in *.
+      destruct (is_final r) eqn:Efin2.
+      { apply okr_ret. splits.
+        - constructor; [exact Hok|constructor; [exact Hok2|constructor]].
+        - exists [observe t l1], (observe r l2). splits; [reflexivity|exact Efin2|].
+          constructor; [exact Efin|constructor].
+        - exact Hbad. }
+      destruct (Hnf2 eq_refl) as (Hn2 & Ho2).
+      eapply okr_bind; [apply (IH _ l2 Hn2); lia|].
+      intros rest (Hall & (pre & o & -> & Hfo & Hpre') & _). apply okr_ret. splits.
+      * constructor; [exact Hok|constructor; [exact Hok2|exact Hall]].
+      * exists (observe t l1 :: observe r l2 :: pre), o. splits; [reflexivity|exact Hfo|].
+        constructor; [exact Efin|constructor; [exact Efin2|exact Hpre']].
+      * exact Hbad.
+    + eapply okr_bind; [apply (IH _ l1 Hn1); lia|].
+      intros rest (Hall & (pre & o & -> & Hfo & Hpre') & _). apply okr_ret. splits.
+      * constructor; [exact Hok|exact Hall].
+      * exists (observe t l1 :: pre), o. splits; [reflexivity|exact Hfo|].
+        constructor; [exact Efin|exact Hpre'].
+      * exact Hbad.
 Qed.
 
 End Tokens.
